@@ -13,13 +13,17 @@ var triviaChoices = []string{"", "", " ", " ", "  ", "\t", "\n", "\r\n", " ;c\n"
 	";\n", " ; \t\n", ";\r\n", ";\n;\n\n", "\n;\n", ";;\n",
 	";was:\tD_7[2]\n", " ;\x01\x7f ctl E[1]\n", "; nb\u00a0sp F[1]{a=b}\n", ";cr\rC[9]\n", ";\u2028ls G[1]\n", ";\x00nul A[1]\n",
 	// bytes that other systems read as an end of input (^Z of DOS, ^D, escape, ^C) are ordinary comment text
-	";eof\x1a B[1]\n", " ;\x04\x1b\x03 D[2]\n", ";\x1a\n"}
+	";eof\x1a B[1]\n", " ;\x04\x1b\x03 D[2]\n", ";\x1a\n",
+	// a comment ends at its line break, also when its last character is a backslash
+	"; source: C:\\songs\\autumn\\\n", ";\\\n", " ;x\\\r\n"}
 
 var metaLexemes = []string{";-)", ";k", "７", "k", "key", "Am", "txt", "a b", "x;y", "120", "v w  x", "5/4", "ff", "日本語", "tail", "semi;colon", "new\nline", "[1]", "C_7/E", "-", "é😀", "#", "b"}
 
 var freeSymbols = []string{"７", "m٣", "m", "dim", "maj7", "aug", "sus4", "M7", "m7b5", "add9", "mM7", "m7", "o", "ø7", "(b9)", "+", "-5", "maj7#11", "mb5", "sus", "Δ", "x]y", "{q", "a,b", "}",
 	// runes that look like an accidental sign but are not one: part of the symbol, with or without the underscore
-	"＃m7", "＃", "♮7", "ｂ5", "𝄪", "𝄫9", "﹟11"}
+	"＃m7", "＃", "♮7", "ｂ5", "𝄪", "𝄫9", "﹟11",
+	// an open parenthesis that is never closed; symbols that begin with a variation selector
+	"m7(b5", "7(b9", "(", "maj7(", "\ufe0em7", "\ufe0f7"}
 
 // bareSymbols are the free symbols that lex as one SYMBOL without a leading underscore.
 var bareSymbols = func() []string {
